@@ -17,7 +17,8 @@ RULE = ("scenarios of 2-3 overlapping queries (same query twice; query and exten
         "depth-first up to a budget, branching only where the preempted operation's key is touched by another task. "
         "Evaluations = schedules executed; non-trivial = schedule with >= 1 preemption; distinct = distinct interleavings "
         "(hash of the (task, operation, key) trace). Beyond the depth-first budget, randomised schedules biased to switch at "
-        "commit points (renames, writes, stores) are added.")
+        "commit points (renames, writes, stores) are added, and directed schedules in which two writers of one key overlap "
+        "inside their store operations at every file-operation offset.")
 ASSUMPTIONS = ["between two yield points a task runs alone (one cache / file operation is atomic w.r.t. the others)",
                "operations on keys no other task touches commute (no branching there)"]
 SHARD_TIMEOUT = {"quick": 900, "thorough": 5400}
@@ -187,6 +188,58 @@ def run_scenario(env, kind, scenario, scratch, bound, budget, viol, stats, only_
                 yield run_schedule([])
         finally:
             policy_box[0] = None
+        # directed schedules: two writers of one key overlap inside their store operations.  Task a is held just before
+        # its store of K, task b is run k yield points into its own store of K, then a completes, then b.
+        stored_keys = sorted({str(key).lstrip("/") for (t, op, key) in first.trace if op == "store"})
+        ntasks = len(queries)
+        for K in stored_keys:
+            for a in range(ntasks):
+                for b in range(ntasks):
+                    if a == b:
+                        continue
+                    for k in range(0, 40):
+                        st = {"phase": 0, "inside": False, "n": 0, "reached": False}
+
+                        def directed(enabled, last, pend, st=st, a=a, b=b, K=K, k=k):
+                            def is_store(p):
+                                return p is not None and p[0] == "store" and str(p[1]).lstrip("/") == K
+                            if st["phase"] == 0:
+                                if last == a and is_store(pend):
+                                    st["phase"] = 1
+                                    return b if b in enabled else a
+                                return a if a in enabled else enabled[0]
+                            if st["phase"] == 1:
+                                if last == b and b in enabled:
+                                    if st["inside"]:
+                                        if pend is None or not str(pend[0]).startswith("fs:"):
+                                            st["phase"] = 2      # b left its store operation before k points
+                                            return a if a in enabled else b
+                                        st["n"] += 1
+                                    elif is_store(pend):
+                                        st["inside"] = True
+                                    if st["inside"] and st["n"] >= k:
+                                        st["phase"] = 2
+                                        st["reached"] = True
+                                        return a if a in enabled else b
+                                    return b
+                                if b in enabled:
+                                    return b
+                                st["phase"] = 2
+                            if a in enabled:
+                                return a
+                            return b if b in enabled else enabled[0]
+
+                        policy_box[0] = directed
+                        try:
+                            sch = run_schedule([])
+                        finally:
+                            policy_box[0] = None
+                        if not st["reached"]:
+                            break          # a never stores K, b never stores K, or b's store has fewer than k points
+                        stats["directed"] = stats.get("directed", 0) + 1
+                        yield sch
+                        if not file_backed:
+                            break          # without file operations there is one point only
 
     for s in all_runs():
         stats["evaluations"] += 1
@@ -245,6 +298,7 @@ def run_shard(spec):
     counters = dict(env.counters)
     counters["yield_points"] = stats.get("yield_points", 0)
     counters["stuck_runs"] = stats.get("stuck", 0)
+    counters["directed_store_overlap_runs"] = stats.get("directed", 0)
     counters["kind." + spec.get("kind", "replay")] = stats["evaluations"]
     return {"evaluations": stats["evaluations"], "nontrivial": sorted(stats["nontrivial"]),
             "violations": [v for lst in violations.values() for v in lst],
